@@ -9,5 +9,5 @@ CONSTANTS
   MaxLenUf = 30
   EmitMin = 6
   LeastBound = 0
-INVARIANTS TypeOK TrClosureLaw TrLaws UfClosureLaw UfLaws Emit
+INVARIANTS TypeOK TrLaws UfLaws
 CHECK_DEADLOCK FALSE
